@@ -2,9 +2,9 @@
 import datetime
 import math
 from . import error
-from ..helper.number import to_number
+from ..helper.number import to_number, whole_text
 from .utils import OPERATOR_DICT, serialize_date, parse_date, date_1900
-from .._compat import number_types, string_types
+from .._compat import integer_types, number_types, string_types
 
 
 NoneType = type(None)
@@ -376,6 +376,8 @@ def text_of(value):
     if isinstance(value, float) and value.is_integer() and abs(value) <= 2**53:
         # a whole number joins as its digits however it was computed: (10/2)&" items" is "5 items"
         return str(int(value))
+    if isinstance(value, integer_types) and not isinstance(value, bool):
+        return whole_text(value)  # str() refuses a whole number of more than 4300 digits
     return str(value)
 
 
